@@ -56,7 +56,7 @@ def strategy(tier):
 
 
 def n_random(tier):
-    return 500 if tier == "quick" else 20000
+    return 500 if tier == "quick" else 3000
 
 
 def cut_points(prog, pvals, flags):
